@@ -238,14 +238,17 @@ example :
 /-- The regular expressions whose deterministic readings the model's recognisers are
     (`comScan` for `COM_RE` and the doc-mark pattern; `Show.litEnd`/`searchQuote` for `QUOTES_RE`;
     `Show.commaSpace` for `COMMA_RE`; `Show.nbsp` for `NBSP_RE`) are the ones in the source: an
-    edit of any of these patterns changes this obligation. -/
+    edit of any of these patterns changes this obligation.  The patterns are compared in a normal form of their
+    parsed structure (translate/c02.py `normal_form`: layout, escapes, transparent groups and - for the two comment
+    patterns, of which the reader only asks where the last group starts - which of the other groups capture do not
+    show), so a re-spelling that means the same does not. -/
 theorem regex_sources_pinned :
     Generated.C02.regexSources = [
-      ("ford.reader", "FortranReader.COM_RE", "^([^\"'!]|('[^']*')|(\"[^\"]*\"))*(!.*)$", 32),
-      ("ford.reader", "_compile_docmark(@)", "^([^\"'!]|('[^']*')|(\"[^\"]*\"))*(!@.*)$", 32),
-      ("ford.sourceform", "QUOTES_RE", "\\\"([^\\\"]|\\\"\\\")*\\\"|'([^']|'')*'", 34),
+      ("ford.reader", "FortranReader.COM_RE", "^(?:[^!\"']|'[^']*'|\"[^\"]*\")*(!.*)$", 32),
+      ("ford.reader", "_compile_docmark(@)", "^(?:[^!\"']|'[^']*'|\"[^\"]*\")*(!@.*)$", 32),
+      ("ford.sourceform", "QUOTES_RE", "\"([^\"]|\"\")*\"|'([^']|'')*'", 34),
       ("ford.sourceform", "COMMA_RE", ",(?!\\s)", 32),
-      ("ford.sourceform", "NBSP_RE", " (?= )|(?<= ) ", 32)] := rfl
+      ("ford.sourceform", "NBSP_RE", "\\ (?=\\ )|(?<=\\ )\\ ", 32)] := rfl
 
 /-- **No character inside a closed literal moves the comment.**  After any comment-free,
     quote-closed prefix `p` and one more closed literal `q body q` - `body` being *any* characters
